@@ -5,7 +5,7 @@ import ast
 
 from framelint.core import rule, Ctx
 from framelint.srcmodel import walk_own, AnalysisError
-from framelint.canon import canon_function, show, S, to_poly, mk_lt, mk_and, mk_not, k_num, contains, skey, atoms_of
+from framelint.canon import canon_function, show, S, to_poly, mk_lt, mk_and, mk_not, k_num, contains, skey, atoms_of, Sigma
 from framelint.cfg import EXIT, ENTRY
 from .common import (GEOM, DIE, stmt_calls, exit_facts, facts_text, call_name, norm_stmt, attr_stores_in_repo,
                      mutating_calls_on_attr, assert_conjuncts)
@@ -207,40 +207,56 @@ def r4(ctx: Ctx) -> None:
 def r1(ctx: Ctx) -> None:
     fi = ctx.func(DIE, "Die.split_refinable_regions")
     c = canon_function(fi, ctx.model)
-    loops = [st for st in c if st[0] == "for"]
+    from framelint.canon import mk_eq, k_str, K_TRUE, mk_and
+    from .common import kw_value, self_field
     calls_sr = sorted(set(atoms_of(c, lambda x: x[0] == "c" and x[1] == ("g", "split_rectangles"))), key=skey)
-    if len(loops) != 1 or len(calls_sr) != 1:
-        ctx.site(fi.where, "one splitter call over all refinable regions, one redistribution loop", loops=len(loops), splitter_calls=len(calls_sr))
-        ctx.report(fi.where, f"splitter-structure loops={len(loops)} calls={len(calls_sr)}",
-                   "split_refinable_regions does not make one split_rectangles call on (specialised + ground regions, aspect_ratio, n) followed by one redistribution loop: "
+    # where the pieces go: {list: [(source, condition on the piece with the piece as ('k','piece'))]} -- from a loop that files
+    # every piece by a test, or from one filtering comprehension per list
+    PIECE = ("k", "piece")
+    dest: dict = {}
+    resets = set()
+    others = []
+
+    def file_into(body, v, src, cond):
+        for st in body:
+            if st[0] == "if" and len(st) == 4:
+                file_into(st[2], v, src, mk_and([cond, st[1]]))
+                file_into(st[3], v, src, mk_and([cond, mk_not(st[1])]))
+            elif st[0] == "expr" and st[1][0] == "c" and st[1][1][0] == "a" and st[1][1][2] == "append" and st[1][2] == (v,) and st[1][1][1][:2] == ("a", ("self",)):
+                dest.setdefault(st[1][1][1][2].lstrip("_"), []).append((src, Sigma(raw_subst={v: PIECE}).apply(cond)))
+            else:
+                others.append(st)
+    for st in c:
+        if st[0] == "set" and st[1][0] == "a" and st[1][1] == ("self",) and st[2] == ("list", ()):
+            resets.add(st[1][2].lstrip("_"))
+        elif st[0] == "set" and st[1][0] == "a" and st[1][1] == ("self",) and st[2][0] == "comp" and st[2][1] == "list" and len(st[2][3]) == 1 \
+                and st[2][2] == (st[2][3][0][0],):
+            b_, src, cond = st[2][3][0]
+            dest.setdefault(st[1][2].lstrip("_"), []).append((src, Sigma(raw_subst={b_: PIECE}).apply(cond)))
+            resets.add(st[1][2].lstrip("_"))          # an assignment replaces the old contents
+        elif st[0] == "for" and len(st) == 5 and st[1][0] == "v":
+            file_into(st[3], st[1], st[2], K_TRUE)
+        elif st[0] != "assert":
+            others.append(st)
+    src_want = (to_poly(("a", ("self",), "ground_regions")) + to_poly(("a", ("self",), "specialized_regions"))).to_s()
+    call_want = ("c", ("g", "split_rectangles"), (src_want, ("p", 0), ("p", 1)), ())
+    ctx.site(fi.where, "one splitter call over all refinable regions (specialised + ground regions, aspect_ratio, n)", splitter_calls=len(calls_sr))
+    if len(calls_sr) != 1 or not dest:
+        ctx.report(fi.where, f"splitter-structure loops={len([st for st in c if st[0] == 'for'])} calls={len(calls_sr)}",
+                   "split_refinable_regions does not make one split_rectangles call on (specialised + ground regions, aspect_ratio, n) followed by one redistribution: "
                    "splitting the lists separately does not guarantee the requested total count", lineno=fi.node.lineno)
     else:
-        lp = loops[0]
-        it = lp[2]
-        src = (to_poly(("a", ("self",), "ground_regions")) + to_poly(("a", ("self",), "specialized_regions"))).to_s()
-        ctx.site(fi.where, "splitter receives specialised + ground regions", iter=show(it))
-        good_call = it[0] == "c" and it[1] == ("g", "split_rectangles") and len(it[2]) == 3 and it[2][0] == src \
-            and it[2][1] == ("p", 0) and it[2][2] == ("p", 1)
-        if not good_call:
-            # allow an intermediate local holding the result
-            ctx.report(fi.where, f"splitter-call {show(it)}", "the splitter is not called on exactly (specialised + ground regions, aspect_ratio, n)",
+        if calls_sr[0] != call_want:
+            ctx.report(fi.where, f"splitter-call {show(calls_sr[0])}", "the splitter is not called on exactly (specialised + ground regions, aspect_ratio, n)",
                        lineno=fi.node.lineno)
-        v = lp[1]
-        body = lp[3]
         ctx.site(fi.where, "every piece goes to exactly one list by its tag")
-        ground = ("expr", ("c", ("a", ("a", ("self",), "_ground_regions"), "append"), (v,), ()))
-        spec = ("expr", ("c", ("a", ("a", ("self",), "_specialized_regions"), "append"), (v,), ()))
-        from framelint.canon import mk_eq
-        from framelint.canon import k_str
-        from .common import kw_value
-        cond = mk_eq(("a", v, "region"), k_str(kw_value(ctx, "KW_GROUND")))
-        ok = len(body) == 1 and body[0][0] == "if" and ((body[0][1] == cond and body[0][2] == (ground,) and body[0][3] == (spec,)))
-        if not ok:
-            ctx.report(fi.where, "partition-back " + "; ".join(show(x) for x in body),
+        is_ground = mk_eq(("a", PIECE, "region"), k_str(kw_value(ctx, "KW_GROUND")))
+        want = {"ground_regions": [(calls_sr[0], is_ground)], "specialized_regions": [(calls_sr[0], mk_not(is_ground))]}
+        if dest != want or others:
+            ctx.report(fi.where, "partition-back " + "; ".join(f"{k}: {show(cnd)}" for k, v_ in sorted(dest.items()) for _, cnd in v_)[:200],
                        "pieces are not redistributed as 'ground tag -> ground list, otherwise -> specialised list'", lineno=fi.node.lineno)
-        resets = {st[1][2] for st in c if st[0] == "set" and st[1][0] == "a" and st[1][1] == ("self",) and st[2] == ("list", ())}
         ctx.site(fi.where, "both refinable lists are emptied before redistribution", resets=sorted(resets))
-        if resets != {"_ground_regions", "_specialized_regions"}:
+        if resets != {"ground_regions", "specialized_regions"}:
             ctx.report(fi.where, "list-reset " + " ".join(sorted(resets)), "the refinable lists are not both (and only they) reset before redistribution",
                        lineno=fi.node.lineno)
     # who writes the region lists
@@ -282,9 +298,10 @@ def r6(ctx: Ctx) -> None:
     need = {
         "nrows > 0": mk_lt(z, ("p", 0)),
         "ncols > 0": mk_lt(z, ("p", 1)),
-        "no fixed regions": mk_eq(ln("fixed_regions"), z),
-        "no specialised regions": mk_eq(ln("specialized_regions"), z),
-        "no blockages": mk_eq(ln("blockages"), z),
+        # 'len(x) == 0' as a test is 'not x' in the normal form
+        "no fixed regions": mk_not(("a", ("self",), "fixed_regions")),
+        "no specialised regions": mk_not(("a", ("self",), "specialized_regions")),
+        "no blockages": mk_not(("a", ("self",), "blockages")),
         "one ground region": mk_eq(ln("ground_regions"), k_num(1)),
     }
     ctx.site(fi.where, "clean-die and positive-count obligations", facts=facts_text(facts))
@@ -294,8 +311,10 @@ def r6(ctx: Ctx) -> None:
     c = canon_function(fi, ctx.model)
     sets = [st for st in c if st[0] == "set"]
     ctx.site(fi.where, "ground regions := die.rectangle_grid(nrows, ncols)")
-    want = ("set", ("a", ("self",), "_ground_regions"), ("c", ("a", ("a", ("self",), "_die"), "rectangle_grid"), (("p", 0), ("p", 1)), ()))
-    alt = ("set", ("a", ("self",), "_ground_regions"), ("c", ("a", ("a", ("self",), "_die"), "rectangle_grid"), (), (("ncols", ("p", 1)), ("nrows", ("p", 0)))))
+    from .common import self_field
+    die_box = self_field(fi, "_die")
+    want = ("set", ("a", ("self",), "_ground_regions"), ("c", ("a", die_box, "rectangle_grid"), (("p", 0), ("p", 1)), ()))
+    alt = ("set", ("a", ("self",), "_ground_regions"), ("c", ("a", die_box, "rectangle_grid"), (), (("ncols", ("p", 1)), ("nrows", ("p", 0)))))
     if sets != [want] and sets != [alt]:
         ctx.report(fi.where, "grid-call " + "; ".join(show(x) for x in sets), "initial_grid does not set the ground regions to die.rectangle_grid(nrows, ncols)",
                    lineno=fi.node.lineno)
